@@ -255,6 +255,8 @@ class Interp:
                 return len(v.py) > 0
             if v.opaque:
                 raise OutOfSubset("truth of opaque string")
+            if hasattr(v, "parts"):
+                return self.P.ghost["strmodel"].truth(self, v)
             return v.name != lit("")
         if isinstance(v, STuple):
             return len(v.items) > 0
@@ -349,6 +351,17 @@ class Interp:
                 return a.py == b.py
             if a.opaque or b.opaque:
                 raise OutOfSubset("== on opaque string")
+            if hasattr(a, "parts") or hasattr(b, "parts"):
+                if a is b:
+                    return True
+                from .strparts import parts_of, parts_equal
+
+                pa, pb = parts_of(a), parts_of(b)
+                if len(pa) == len(pb) and all(x[0] == y[0] for x, y in zip(pa, pb)) and all(x[1] == y[1] for x, y in zip(pa, pb) if x[0] == "lit"):
+                    # same token shape: equal iff the pieces are equal, given that symbols contain no
+                    # separator characters (table obligation of C20)
+                    return parts_equal(pa, pb)
+                raise OutOfSubset("== between differently built strings")
             return a.name == b.name
         if a is SNone or b is SNone:
             if a is b:
